@@ -65,9 +65,11 @@ def build():
         shutil.rmtree(tmp, ignore_errors=True)
     # keep the cache small
     try:
+        import time
         olds = sorted((os.path.getmtime(os.path.join(root, d)), d) for d in os.listdir(root) if d != tag and '.tmp' not in d)
-        for _t, d in olds[:-3]:
-            shutil.rmtree(os.path.join(root, d), ignore_errors=True)
+        for t, d in olds[:-3]:
+            if time.time() - t > 6 * 3600:   # never remove a build another process may still be loading
+                shutil.rmtree(os.path.join(root, d), ignore_errors=True)
     except OSError:
         pass
     return out, ext
